@@ -240,7 +240,10 @@ def gen_scenario(rng, size="small", features=None):
         for _ in range(rng.range(1, 2)):
             if rng.chance(1, 3):
                 # a give whose value cannot be marshalled (abstract without marshal hooks) must raise and leave the channel usable
-                bad_sel.append({"chans": [rng.below(nch)], "bad": rng.choice(["unpackable", "unpackable-nested"]), "fn": rng.choice(["give", "select-give"])})
+                fn = rng.choice(["give", "select-give", "select-give-multi"])
+                # select-give-multi: valid read clause(s) first, then the give clause with the unpackable value
+                bad_sel.append({"chans": [rng.below(nch) for _ in range(2 if fn == "select-give-multi" else 1)],
+                                "bad": rng.choice(["unpackable", "unpackable-nested"]), "fn": fn})
                 continue
             bad_sel.append({"chans": [rng.below(nch) for _ in range(rng.range(1, 2))], "bad": rng.choice(["keyword", "triple", "badgive", "number"]),
                             "fn": rng.choice(["select", "select", "rselect"])})
@@ -418,6 +421,8 @@ def render(scn, stall=8):
                 return "(ev/give (chans %d) %s)" % (b["chans"][0], unp[b["bad"]])
             if b["fn"] == "select-give":
                 return "(ev/select [(chans %d) %s])" % (b["chans"][0], unp[b["bad"]])
+            if b["fn"] == "select-give-multi":
+                return "(ev/select (chans %d) [(chans %d) %s])" % (b["chans"][0], b["chans"][1], unp[b["bad"]])
             return "(ev/%s %s %s)" % (b["fn"], " ".join("(chans %d)" % ci for ci in b["chans"]), badx[b["bad"]])
         calls = " ".join('(wr f "badselect %d " (try (do %s "returned") ([e] "raised")))' % (k, badcall(b)) for k, b in enumerate(bad_sel))
         used = sorted(set(ci for b in bad_sel for ci in b["chans"]))
@@ -594,7 +599,8 @@ def oracle(scn, res):
             bad.append(("select-bad-clause-accepted", "ev/select with a malformed clause returned normally: %r" % bl))
         elif bl == ["badselect %d raised" % k for k in range(len(bad_sel))] and bu != ["use %d 0" % ci for ci in used]:
             gv = any(b["fn"] in ("give", "select-give") for b in bad_sel)
-            bad.append(("give-unpackable-keeps-lock" if gv else "select-bad-clause-keeps-locks",
+            gm = any(b["fn"] == "select-give-multi" for b in bad_sel)
+            bad.append(("give-unpackable-keeps-lock" if gv else "select-unpackable-give-keeps-locks" if gm else "select-bad-clause-keeps-locks",
                         "an OS thread's failing channel operation(s) %r raised (malformed select clause / value that cannot be marshalled); another OS thread that then "
                         "used the same thread channels (ev/count on %r) got %r%s" % (
                             [(b["fn"], b["chans"], b["bad"]) for b in bad_sel], used, bu,
